@@ -133,6 +133,10 @@ func buildC02(t interface {
 	}
 	code = append(code, app.Inst{Op: app.MNEXT, A: x.nextLabel, B: x.nextSel})
 	code = append(code, app.Inst{Op: app.MPREV, A: x.prevLabel, B: x.prevSel})
+	if t.Chance(1, 4) {
+		// the order of the two lines is the author's choice
+		code[len(code)-2], code[len(code)-1] = code[len(code)-1], code[len(code)-2]
+	}
 	if x.msink {
 		code = append(code, app.Inst{Op: app.MSINK})
 	}
